@@ -721,11 +721,13 @@ class MementoFunctionHashRule(HashRule):
             )
 
     def compute_hash(self) -> Optional[str]:
-        return (
-            self.memento_fn.explicit_version
-            if self.memento_fn.explicit_version is not None
-            else self.memento_fn.code_hash
-        )
+        explicit_version = self.memento_fn.explicit_version
+        if explicit_version is not None:
+            # A digest of fixed length, like every other rule hash: the rule hashes are
+            # concatenated to form the version of the dependent function, and the free-text
+            # versions of two dependencies could be split another way ("1", "12" / "11", "2")
+            return hashlib.sha256(explicit_version.encode("utf-8")).hexdigest()[0:16]
+        return self.memento_fn.code_hash
 
     def did_change(self) -> bool:
         # Changes to the definition of a MementoFunctionType are more robust and detected using a
